@@ -16,6 +16,7 @@ mod ops_text;
 mod ops_reader;
 mod ops_stream;
 mod ops_extract;
+mod ops_writer;
 mod mkzip;
 
 pub use util::*;
@@ -45,6 +46,9 @@ fn dispatch(op: &str, args: &[Arg]) -> String {
         return r;
     }
     if let Some(r) = ops_extract::dispatch(op, args) {
+        return r;
+    }
+    if let Some(r) = ops_writer::dispatch(op, args) {
         return r;
     }
     "BADOP".to_string()
